@@ -41,7 +41,7 @@ class C13(runner.Check):
   chunk = 10
   probes = ['probe.restart-after-state-changed', 'probe.nsga2-left-sampling-phase', 'probe.eagle-pool-full',
             'probe.cmaes-generation-boundary', 'probe.infeasible-trial-fed', 'probe.depth.direct',
-            'probe.depth.policy', 'probe.depth.service', 'probe.grid-fully-covered', 'probe.exhaustive-subsets']
+            'probe.depth.policy', 'probe.depth.service', 'probe.grid-fully-covered', 'probe.exhaustive-subsets', 'probe.out-of-order-completions']
 
   def gen(self, rng, idx, tier):
     depth = rng.choice(['direct'] * 5 + ['policy'] * 3 + ['service'] * 2)
@@ -73,7 +73,10 @@ class C13(runner.Check):
         sets.append(sorted(rng.sample(range(n), rng.randrange(1, n))))
       if depth == 'service':
         sets = sets[:1] + sets[2:]
-    return {'designer': name, 'space': space, 'seed': rng.randrange(1, 10**6), 'depth': depth,
+    seed = rng.randrange(1, 10**6) if rng.random() < 0.85 else rng.choice([0, 0, 1, 2**31 - 1])
+    return {'designer': name, 'space': space, 'seed': seed, 'depth': depth,
+            'order': rng.choice(['in-order', 'in-order', 'reversed', 'shuffled', 'shuffled', 'delayed']),
+            'order_seed': rng.randrange(10**6),
             'batches': batches, 'restart_sets': sets, 'exhaustive': exhaustive,
             'infeasible_mod': rng.choice([0, 0, 4, 5]) if name != 'nsga2' else 0,
             'metrics': 2 if (name == 'nsga2' and rng.random() < 0.5) else 1,
@@ -154,6 +157,7 @@ class C13(runner.Check):
       A = twin.make(name, prob, seed)
       B = twin.make(name, prob, seed)
       tid = 0
+      carry = []
       for step, count in enumerate(plan['batches']):
         clk.advance(plan['advance'][step])
         if step in restarts:
@@ -179,13 +183,26 @@ class C13(runner.Check):
           if pa != pb:
             viol.append(('phase-differs-after-restart', f'step {step}: live instance is in the {"mutation" if pa else "sampling"} phase, restarted one in the {"mutation" if pb else "sampling"} phase'))
             break
-        trials = []
+        trials = list(carry)
+        carry = []
         for s in sa:
           tid += 1
           inf = self._infeasible(plan, tid)
           if inf:
             res.bump('probe.infeasible-trial-fed')
           trials.append(twin.complete(s, tid, infeasible=inf, metrics=plan.get('metrics', 1)))
+        # Completions reach the algorithm in another order than suggested, or late.
+        order = plan.get('order', 'in-order')
+        if order == 'reversed':
+          trials.reverse()
+        elif order in ('shuffled', 'delayed'):
+          import random as _r  # pylint: disable=g-import-not-at-top
+          _r.Random(plan.get('order_seed', 0) * 1000 + step).shuffle(trials)
+        if order == 'delayed' and len(trials) > 1 and step + 1 < len(plan['batches']):
+          carry = trials[-1:]
+          trials = trials[:-1]
+        if order != 'in-order':
+          res.bump('probe.out-of-order-completions')
         before = twin.cma_state(A) if name == 'cmaes' else None
         twin.update(A, trials)
         twin.update(B, trials)
@@ -242,6 +259,13 @@ class C13(runner.Check):
           trials = supporter.SuggestTrials(policy, count)
           seq.append([twin.pkey(t) for t in trials])
           mutated = twin.CountingMutation.TOTAL[0] > mut0
+          order = plan.get('order', 'in-order')
+          trials = list(trials)
+          if order == 'reversed':
+            trials.reverse()
+          elif order in ('shuffled', 'delayed'):
+            import random as _r  # pylint: disable=g-import-not-at-top
+            _r.Random(plan.get('order_seed', 0) * 1000 + step).shuffle(trials)
           for t in trials:
             if self._infeasible(plan, t.id):
               t.complete(vz.Measurement(), infeasibility_reason='harness: infeasible')
